@@ -30,7 +30,8 @@ def gen_prog(rng, nm=None, nh=None, nv=None, cyc_rate=0.15, hidden_rate=0.08, au
         if n[0] == "m" and n != "m%d" % nm and rng.random() < maux_rate:
             where = "aux"                 # memento functions of the helper module (reached as `aux.mK` from `mod`)
         if n[0] == "V":
-            val = rng.choice([1, 2, "s", [1, 2], {"a": 1, "b": [2]}, 1.5, True, None, "UNSUPPORTED", "DICT_FROM_SET0", "MIXDICT_FROM_SET0"])
+            val = rng.choice([1, 2, "s", [1, 2], {"a": 1, "b": [2]}, 1.5, True, None, "UNSUPPORTED", "DICT_FROM_SET0", "MIXDICT_FROM_SET0",
+                              "UNSUPPORTED_SET", "UNSUPPORTED_LSET"])
             defs[n] = dict(kind="var", where=where, value=val)
             continue
         d = dict(kind="memento" if n[0] == "m" else "plain", where=where, const=rng.randint(0, 9),
@@ -197,12 +198,17 @@ def discipline(prev, cur):
 
 def unsupported(v):
     """values of types memento does not track (no rule is made for the variable)"""
-    return v == "UNSUPPORTED" or (isinstance(v, str) and v.startswith("MIXDICT"))
+    return isinstance(v, str) and (v.startswith("UNSUPPORTED") or v.startswith("MIXDICT"))
 
 
 def _lit(v):
     if v == "UNSUPPORTED":
         return "complex(1, 2)"
+    if v == "UNSUPPORTED_SET":
+        # a set of strings (iteration order follows hash randomisation); sets are not tracked
+        return "{'alpha', 'beta', 'gamma', 'delta', 'eps', 'zeta'}"
+    if v == "UNSUPPORTED_LSET":
+        return "[1, {'k': frozenset({'alpha', 'beta', 'gamma', 'delta'})}]"
     if isinstance(v, str) and v.startswith("MIXDICT_FROM_SET"):
         # the same with keys of two types (str and int): json cannot sort such keys
         return "{(k if len(k) %% 2 else len(k)): len(k) + %d for k in {'alpha', 'beta', 'gamma', 'delta', 'eps', 'zeta', 'et'}}" % int(v[16:] or 0)
